@@ -37,6 +37,11 @@ def corpus(R):
         rb = bytes(R.rng.randrange(256) for _ in range(32))
         ops.append("G rn %s 0 %s 32 192" % (hx(pfx), hx(rb)))
         ops.append("G rn %s 0 %s 32 14" % (hx(pfx), hx(rb)))
+        # explicit costs: the count handling lives in code shared between methods (util-gensalt-sha.c for $1$/$5$/$6$, the yescrypt family's
+        # parameter encoder) and can be tied to the wrong INCLUDE_ macro as easily as the hashing code (seeded/C19c)
+        for count in {"sha512crypt": [1000, 10000, 656000], "sha256crypt": [1000, 10000, 656000], "md5crypt": [1000], "sha1crypt": [1000, 300000], "sunmd5": [70000],
+                      "bcrypt": [4, 9], "bcrypt_a": [6], "bcrypt_y": [7], "yescrypt": [1, 3, 7], "gost_yescrypt": [2, 6], "scrypt": [6, 9], "bsdicrypt": [1, 5001, 70000]}.get(m, []):
+            ops.append("G rn %s %d %s 32 192" % (hx(pfx), count, hx(rb)))
     # the modes of the shared yescrypt KDF that another method also uses (flavor 0 = classic scrypt, 1 = WORM), reached through $y$ / $gy$
     for st in (b"$y$.75$abcd", b"$y$/65$abcd", b"$gy$.75$abcd", b"$gy$/65$abcd", b"$y$j75./$abcd", b"$7$66..../....abcd$"):
         ops.append(CS.crypt_op("rn", 0, b"pw", st)); ops.append("K " + hx(st))
